@@ -168,6 +168,8 @@ let field_of (key : string) (s : string) : string option =
 let reader_of mode (segs : n list list) : reader =
   if mode = "B" then BR (List.concat segs, O) else new_wire_reader segs
 
+let slow_report = (try Sys.getenv "PACKET_SLOW" <> "" with Not_found -> false)
+
 let () =
   let lineno = ref 0 and compared = ref 0 and skipped = ref 0 in
   let cur = ref NoCase in
@@ -180,6 +182,7 @@ let () =
     while true do
       let line = input_line stdin in
       incr lineno;
+      let t0 = Sys.time () in
       (try
       match String.split_on_char ' ' line with
       | "MKDATA" :: rest ->
@@ -310,7 +313,9 @@ let () =
       | [""] | [] -> ()
       | "#" :: _ -> ()
       | _ -> Printf.printf "BADLINE %d\n" !lineno
-      with Failure msg -> Printf.printf "BADLINE %d %s\n" !lineno msg)
+      with Failure msg -> Printf.printf "BADLINE %d %s\n" !lineno msg);
+      let dt = Sys.time () -. t0 in
+      if slow_report && dt > 0.25 then Printf.eprintf "SLOW %d %.2fs %s\n" !lineno dt (String.sub line 0 (min 60 (String.length line)))
     done
   with End_of_file -> ());
   Printf.printf "DONE %d %d %d\n" !lineno !compared !skipped
